@@ -15,7 +15,7 @@ from vlib.runner import HarnessError, Mismatch, drive, jdump
 PROP = "C09"
 LEVEL = "fault_enumeration"
 WORKERS = {"quick": 4, "thorough": 16}
-BUDGET = {"quick": 60, "thorough": 560}
+BUDGET = {"quick": 100, "thorough": 560}
 TECHNIQUE = (
     "fault enumeration over the bytes of state point files (every truncation offset, every offset x 17 replacement byte "
     "classes, deletion, valid-JSON replacements, directory renames) x {cache, no cache} + Hypothesis multi-job fault "
